@@ -1,3 +1,140 @@
-(* C02 — property theorems (in progress). *)
-From Coq Require Import ZArith.
-Example C02_placeholder : True. Proof. exact I. Qed.
+(* C02 — reorganisation only to a strictly heavier valid branch above the last
+   checkpoint.  Statements only; proofs are in C02/Proofs.v over the shared
+   invariant S2/Invariant.v.
+
+   All statements are about an arbitrary reachable state: the state [s] after
+   an arbitrary history [ops], and an arbitrary next operation [o].  The
+   hypotheses are those of C01 (see C01/Properties.v), taken on the history
+   including [o]: wf_params (checkpoint heights strictly ascending and > 0,
+   retarget interval > 0, window capacity >= 1), no_collision (hash tokens
+   identify headers; nothing hashes to the genesis block's previous-block
+   field), wf_hist (every headers message shorter than the in-memory window,
+   no externally invoked rollBackToHeight, fewer than 1000000 headers).
+
+   FINDING.  The statement "every change is Unchanged / Extended / Reorganised /
+   CutAtCheckpoint" is FALSE of the code as modelled: the header loop stops at
+   the next checkpoint, so a heavier branch that crosses the next checkpoint is
+   adopted only up to the checkpoint, and that part alone can carry less work
+   than the headers it displaces (C02_strict_refuted; needs a branch whose
+   difficulty rises after the checkpoint, e.g. the testnet min-difficulty
+   rule).  Recorded as finding F27.  The theorems therefore carry the explicit
+   exception [reorg_truncated_atb] of C02/Truncated.v, a boolean on plain
+   lists: classify says Illegal although the fork is not below a reached
+   checkpoint, the adopted branch is the proper prefix, ending on a checkpoint
+   height with the checkpoint's hash, of the branch OFFERED by the message,
+   and the offered branch is valid header by header, matches the checkpoints
+   and has strictly more work than the displaced headers
+   (reorg_truncated_atb_sound: it implies the Prop [reorg_truncated]). *)
+From stdpp Require Import list.
+From Coq Require Import ZArith Lia.
+From Verif Require Import S2.Model C01.Spec C02.Spec C02.Truncated S2.Basics S2.Invariant C01.Proofs C02.Proofs.
+Open Scope Z_scope.
+
+(* a headers message changes the chain only in a legal way (or by a truncated
+   reorganisation, see above); no other operation changes the chain *)
+Theorem C02_only_legal_changes : forall P gfh ops o,
+  wf_params P -> no_collision P (ops ++ [o]) -> wf_hist P (ops ++ [o]) ->
+  let s := run P (init_state P gfh) ops in
+  match o with
+  | OHeaders _ now msg =>
+      legal (classify P (chain s) (chain (step P s o)) msg) = true \/
+      reorg_truncated_atb P now (chain s) (chain (step P s o)) msg = true
+  | _ => chain (step P s o) = chain s
+  end.
+Proof. exact only_legal_changes. Qed.
+Print Assumptions C02_only_legal_changes.
+
+(* whenever accepted headers are replaced by others: the replacing headers are
+   the part, up to the first checkpoint height, of a branch offered by this
+   message in which every header is valid on its prefix and matches the
+   checkpoints, which has strictly more work than the displaced headers and
+   forks at or above the newest checkpoint the chain had reached *)
+Theorem C02_reorg_conditions : forall P gfh ops p now msg,
+  let o := OHeaders p now msg in
+  wf_params P -> no_collision P (ops ++ [o]) -> wf_hist P (ops ++ [o]) ->
+  let s := run P (init_state P gfh) ops in
+  let before := chain s in
+  let after := chain (step P s o) in
+  let cp := common_prefix before after in
+  let displaced := drop (length cp) before in
+  let branch := drop (length cp) after in
+  displaced <> [] -> branch <> [] ->
+  exists skip offered,
+    msg = skip ++ offered /\
+    branch = upto_checkpoint P (zlen cp - 1) offered /\
+    valid_run P now cp offered = offered /\
+    checkpoints_ok P (cp ++ offered) = true /\
+    work_of offered > work_of displaced /\
+    zlen cp - 1 >= reached_cp P before.
+Proof. exact reorg_conditions_thm. Qed.
+Print Assumptions C02_reorg_conditions.
+
+(* a fully valid batch that extends the tip is adopted, up to and including
+   the first header on a checkpoint height — from ANY peer: no condition on
+   the sender (sync peer or not, synced or not) is needed, the connecting
+   branch of the handler does not look at the peer *)
+Theorem C02_valid_extension_adopted : forall P gfh ops p now msg e,
+  let o := OHeaders p now msg in
+  wf_params P -> no_collision P (ops ++ [o]) -> wf_hist P (ops ++ [o]) ->
+  let s := run P (init_state P gfh) ops in
+  must_adopt P now (chain s) msg = Some e ->
+  chain (step P s o) = e.
+Proof. exact valid_extension_adopted. Qed.
+Print Assumptions C02_valid_extension_adopted.
+
+(* total work never decreases, except when headers are cut back because their
+   branch failed a checkpoint (or by a truncated reorganisation) *)
+Theorem C02_work_monotone : forall P gfh ops p now msg,
+  let o := OHeaders p now msg in
+  wf_params P -> no_collision P (ops ++ [o]) -> wf_hist P (ops ++ [o]) ->
+  let s := run P (init_state P gfh) ops in
+  work_of (chain (step P s o)) >= work_of (chain s) \/
+  classify P (chain s) (chain (step P s o)) msg = CutAtCheckpoint \/
+  reorg_truncated_atb P now (chain s) (chain (step P s o)) msg = true.
+Proof. exact work_monotone. Qed.
+Print Assumptions C02_work_monotone.
+
+(* the exception is real: a reachable state and a message satisfying all
+   hypotheses where the change is not legal and total work decreases
+   (chain 100,201,202 of work 196611 becomes 100,301,302,303 of work 65543) *)
+Theorem C02_strict_refuted :
+  let o := OHeaders 1 ex_now tr_msg in
+  let s := run tr_P (init_state tr_P 7) tr_pre in
+  wf_params tr_P /\ no_collision tr_P (tr_pre ++ [o]) /\ wf_hist tr_P (tr_pre ++ [o]) /\
+  legal (classify tr_P (chain s) (chain (step tr_P s o)) tr_msg) = false /\
+  work_of (chain (step tr_P s o)) < work_of (chain s) /\
+  reorg_truncated_atb tr_P ex_now (chain s) (chain (step tr_P s o)) tr_msg = true.
+Proof. exact strict_refuted. Qed.
+Print Assumptions C02_strict_refuted.
+
+(* non-vacuity: a tie leaves the chain unchanged, a heavier branch is adopted,
+   a heavier branch forking below a reached checkpoint is rejected, a valid
+   extension must be adopted — all under the hypotheses of the theorems *)
+Example C02_nonvacuous :
+  let P := ex_P [] in
+  let s := run P (init_state P 7) ex2_pre in
+  let Pc := ex_P [(1, 101)] in
+  let sc := run Pc (init_state Pc 7) ex3_pre in
+  wf_params P /\ no_collision P (ex2_pre ++ [ex2_tie]) /\ wf_hist P (ex2_pre ++ [ex2_tie]) /\
+  no_collision P (ex2_pre ++ [ex2_heavier]) /\ wf_hist P (ex2_pre ++ [ex2_heavier]) /\
+  wf_params Pc /\ no_collision Pc (ex3_pre ++ [ex3_deep]) /\ wf_hist Pc (ex3_pre ++ [ex3_deep]) /\
+  map hid (chain s) = [100; 101; 102] /\
+  map hid (chain (step P s ex2_tie)) = [100; 101; 102] /\
+  classify P (chain s) (chain (step P s ex2_heavier)) [ex_f2; ex_f3] = Reorganised /\
+  map hid (chain (step P s ex2_heavier)) = [100; 101; 202; 203] /\
+  map hid (chain sc) = [100; 101; 102] /\
+  map hid (chain (step Pc sc ex3_deep)) = [100; 101; 102] /\
+  map hid <$> must_adopt P ex_now (chain s) [ex_h3] = Some [100; 101; 102; 103] /\
+  (* the exception excuses nothing else: had the tie been adopted, it would be a violation *)
+  legal (classify P (chain s) [ex_mk 100 0 1000; ex_h1; ex_f2] [ex_f2]) = false /\
+  reorg_truncated_atb P ex_now (chain s) [ex_mk 100 0 1000; ex_h1; ex_f2] [ex_f2] = false /\
+  reorg_truncatedb P (chain s) [ex_mk 100 0 1000; ex_h1; ex_f2] [ex_f2] = false.
+Proof.
+  cbv zeta.
+  repeat match goal with
+  | |- _ /\ _ => split
+  | |- wf_params _ => split; cbn; lia
+  | |- no_collision _ _ => apply no_collision_b_sound; vm_compute; reflexivity
+  | |- wf_hist _ _ => apply wf_hist_intro; vm_compute; [reflexivity|discriminate]
+  end; vm_compute; reflexivity.
+Qed.
